@@ -258,9 +258,9 @@ def run(ctx):
     core.import_sigpy()
     from sigpy.mri.rf import trajgrad as tg
     rng = ctx.rng
-    maxlen = ctx.n(150000, 3000000)
-    n_rand = ctx.n(700, 8000)
-    n_edge = ctx.n(80, 800)
+    maxlen = ctx.n(100000, 3000000)
+    n_rand = ctx.n(500, 8000)
+    n_edge = ctx.n(60, 800)
     cases = list(corpus_cases())
     skipped = 0
     for fn in ("trap_grad", "min_trap_grad"):
